@@ -22,11 +22,19 @@ class LfricInterp(Interp):
     def __init__(self, *a, **kw):
         super().__init__(*a, **kw)
         self.allow_save_struct = True
-        self.field_ints = {}          # (object key, what) -> z3 Int
+        self.field_ints = {}
+        self.check_kinds = False      # kinds come from external (infrastructure) modules          # (object key, what) -> z3 Int
         self.lfric_events = []        # (guard, object key, method, args)
         self.extern_handler = self._lfric_call
-        self.comment_handler = None
         self.struct_hints.update({"value": ("real", 0)})
+        self.kernel_calls = []        # (guard, name, [arg descriptors], loop stack snapshot)
+        self.summarise = False        # True: every DO loop is summarised by a Skolem loop variable
+        self.loops_seen = []          # dicts: var, skolem, lo, hi, guard, directive, region
+        self.loop_stack = []
+        self.pending_directive = None
+        self.region_stack = []        # enclosing `!$omp parallel` / `!$acc parallel|kernels` regions
+        self.comment_handler = self._directive_comment
+        self.loop_hook = self._loop_hook
 
     # ------------------------------------------------------------ environment
     def use_handler(self, d, frame):
@@ -51,7 +59,7 @@ class LfricInterp(Interp):
     # ------------------------------------------------------------ declarations
     def _declare_stmt(self, d, frame, dummies, actuals, top, guard, keyprefix):
         attrs = d.items[1].items if d.items[1] is not None else []
-        if any(isinstance(a, F.Attr_Spec) and str(a).upper() == "POINTER" for a in attrs):
+        if any(isinstance(a, F.Attr_Spec) and str(a).upper() in ("POINTER", "ALLOCATABLE") for a in attrs):
             tname, dtype = self._type_of_spec(d.items[0])
             rank = 0
             for a in attrs:
@@ -83,7 +91,22 @@ class LfricInterp(Interp):
             base = self._method_base(rhs, frame)
             frame.vars[lname(lhs)] = Binding(lname(lhs), "struct", base.key, rank=base.rank, struct=base.struct)
             return
+        if isinstance(lhs, F.Name) and self._is_method(rhs, None):
+            b = frame.vars.get(lname(lhs))
+            if b is not None and getattr(b, "is_pointer", False) and b.rank > 0:
+                self._bind_method_array(lname(lhs), b, rhs, frame)
+                return
         return super().exec_assign(lhs, rhs, frame, g, mask)
+
+    def _bind_method_array(self, name, b, rhs, frame):
+        base = self._method_base(rhs, frame)
+        _, meth, _ = self._method_parts(rhs)
+        okey = base.key.split("%mesh")[0] if meth.startswith(("get_colour", "get_last", "get_ncol")) else base.key
+        key = f"{okey}%{meth}"
+        if key not in self.store:
+            self.new_storage(key, b.tname, b.rank, is_input=True)
+        bounds = self._comp_bounds(key, b.rank)
+        frame.vars[name] = Binding(name, b.tname, key, rank=b.rank, bounds=bounds)
 
     def exec_ptr_assign(self, s, frame, g):
         lhs, rhs = s.items[0], s.items[2]
@@ -91,6 +114,9 @@ class LfricInterp(Interp):
         b = frame.vars.get(name)
         if b is None:
             raise Unsupported("pointer assignment to " + name)
+        if self._is_method(rhs, None) and b.tname != "struct" and b.rank > 0:
+            self._bind_method_array(name, b, rhs, frame)
+            return
         if self._is_method(rhs, None):
             # mesh => proxy%vspace%get_mesh(): an opaque object
             base = self._method_base(rhs, frame)
@@ -157,6 +183,7 @@ class LfricInterp(Interp):
         if self._is_method(node, None):
             base = self._method_base(node, frame)
             _, meth, args = self._method_parts(node)
+            args = [a.items[1] if isinstance(a, (F.Actual_Arg_Spec, F.Component_Spec)) else a for a in args]
             okey = base.key.split("%mesh")[0]
             if meth == "get_undf":
                 return self.fint(okey, "undf")
@@ -182,6 +209,8 @@ class LfricInterp(Interp):
                 d = self.ev_scalar(args[0], frame, g) if args else z3.IntVal(1)
                 self.lfric_events.append((g, okey, "is_dirty", (d,)))
                 return z3.Function(f"dirty_{okey}", z3.IntSort(), z3.BoolSort())(d)
+            if meth.startswith("get_") and not args:
+                return self.fint(okey, meth[4:])
             raise Unsupported("LFRic method " + meth)
         return super().ev(node, frame, g)
 
@@ -193,10 +222,72 @@ class LfricInterp(Interp):
             okey = b.key if b is not None else obj
             vals = []
             for a in args:
+                if isinstance(a, (F.Actual_Arg_Spec, F.Component_Spec)):
+                    a = a.items[1]
                 try:
                     vals.append(self.ev_scalar(a, frame, g))
                 except Unsupported:
                     vals.append(None)
             self.lfric_events.append((g, okey, meth, tuple(vals)))
             return True
+        if name.endswith("_code"):
+            descr = []
+            for a in args:
+                if isinstance(a, F.Name):
+                    b = self.lookup(lname(a), frame)
+                    descr.append(("name", lname(a), b.key if b is not None else None))
+                elif isinstance(a, F.Part_Ref):
+                    subs = a.items[1]
+                    subs = list(subs.items) if isinstance(subs, F.Section_Subscript_List) else [subs]
+                    fixed = [self.ev_scalar(x, frame, g) for x in subs if not isinstance(x, F.Subscript_Triplet)]
+                    b = self.lookup(lname(a.items[0]), frame)
+                    descr.append(("section", lname(a.items[0]), b.key if b is not None else None, fixed))
+                else:
+                    try:
+                        descr.append(("value", self.ev_scalar(a, frame, g)))
+                    except Unsupported:
+                        descr.append(("other", str(a)))
+            self.kernel_calls.append((g, name[:-5], descr, list(self.loop_stack), list(self.region_stack)))
+            return True
         return False
+
+    # ------------------------------------------------------------ directives and loop summaries
+    @staticmethod
+    def _directive_comment(self, text, frame, g):
+        low = " ".join(text.strip().lower().split())
+        if low.startswith("!$omp parallel do") or low.startswith("!$omp do") or low.startswith("!$acc loop"):
+            self.pending_directive = low
+        elif low.startswith("!$omp parallel") or low.startswith("!$acc parallel") or low.startswith("!$acc kernels"):
+            self.region_stack.append(low)
+        elif low.startswith(("!$omp end parallel do", "!$omp end do")):
+            pass
+        elif low.startswith(("!$omp end parallel", "!$acc end parallel", "!$acc end kernels")):
+            if self.region_stack:
+                self.region_stack.pop()
+
+    @staticmethod
+    def _loop_hook(self, s, frame, g):
+        if not self.summarise:
+            self.pending_directive = None
+            return False
+        content = [c for c in s.content if not isinstance(c, F.Comment)]
+        head = content[0]
+        body = [c for c in s.content if c is not head and not isinstance(c, F.End_Do_Stmt)]
+        lc = head.items[-1] if isinstance(head.items[-1], F.Loop_Control) else head.items[1]
+        if not isinstance(lc, F.Loop_Control) or lc.items[1] is None:
+            raise Unsupported("loop control")
+        var, lims = lc.items[1]
+        vb = self.lookup(lname(var), frame)
+        lo = self.ev_scalar(lims[0], frame, g)
+        hi = self.ev_scalar(lims[1], frame, g)
+        self.fresh += 1
+        sk = z3.Int(f"sk_{lname(var)}_{self.fresh}")
+        info = {"var": lname(var), "skolem": sk, "lo": lo, "hi": hi, "guard": g,
+                "directive": self.pending_directive, "regions": list(self.region_stack), "id": self.fresh}
+        self.pending_directive = None
+        self.loops_seen.append(info)
+        self.store[vb.key] = sk
+        self.loop_stack.append(info)
+        self.exec_block(body, frame, AND(g, sk >= lo, sk <= hi))
+        self.loop_stack.pop()
+        return True
